@@ -113,7 +113,14 @@ pub fn triggers(src: &str, root: &SyntaxNode) -> Vec<&'static str> {
             // a comment stay in the middle of a "line" and the re-alignment differs between passes.
             K::BlockComment if f.node.text().chars().any(|c| syn::is_nl(c) && c != '\n') => add("R37"),
             // R24 (second form): a `;` that terminates embedded code inside math
-            K::Semicolon if in_math[i] && f.parent_idx.is_some_and(|p| flat[p].node.children().any(|c| c.kind() == K::Hash)) => add("R24"),
+            // (only inside an argument list: elsewhere it was repaired by the fix for fractions)
+            K::Semicolon
+                if in_math[i]
+                    && matches!(f.parent, Some(K::Args | K::Array | K::Named | K::Spread))
+                    && f.parent_idx.is_some_and(|p| flat[p].node.children().any(|c| c.kind() == K::Hash)) =>
+            {
+                add("R24")
+            }
             // R11 (markup form): a `\` line break whose trailing blank is an edge blank of an item body
             // directly before `]` is glued to the bracket (`#[+ \ ]` -> `#[+ \]`)
             K::Linebreak if !in_math[i] => {
@@ -427,6 +434,13 @@ pub fn triggers(src: &str, root: &SyntaxNode) -> Vec<&'static str> {
             // parentheses are omitted the comment leaves the import statement, so the next pass sees
             // a comment-free list (it may then be reordered, and the line break after it counts as a
             // space). Also an empty parenthesised list.
+            // R26 (operand form): a parenthesised item list of an import inside a larger expression
+            K::ModuleImport
+                if f.node.children().any(|c| c.kind() == K::LeftParen)
+                    && !matches!(f.parent, Some(K::Code | K::Markup | K::Math | K::CodeBlock) | None) =>
+            {
+                add("R26")
+            }
             K::ModuleImport
                 if f.node.children().any(|c| c.kind() == K::LeftParen)
                     || f.node.children().filter(|c| c.kind() == K::ImportItems).any(|it| {
@@ -463,6 +477,7 @@ pub fn triggers(src: &str, root: &SyntaxNode) -> Vec<&'static str> {
                 (in_body && kids.windows(2).any(|w| run(w[0]) && w[1].kind() == K::Text && w[1].text().chars().next().is_some_and(|c| c.is_ascii_digit())))
                     // ... or the text after the run carries a label, which then attaches to the merged text
                     || kids.windows(3).any(|w| run(w[0]) && w[1].kind() == K::Text && w[2].kind() == K::Label)
+                    || kids.windows(4).any(|w| run(w[0]) && w[1].kind() == K::Text && w[2].kind() == K::Space && w[3].kind() == K::Label)
             } => add("R60"),
             // R61: redundant parentheses around an array on the left of `=`: removing them turns the
             // assignment into a destructuring assignment (`(((a),)) = b` -> `((a),) = b`)
@@ -627,6 +642,11 @@ pub fn triggers(src: &str, root: &SyntaxNode) -> Vec<&'static str> {
                     if a != b && !single_line && (a == 1 || b == 1 || embeds) {
                         add("R35");
                     }
+                    // a multi-line body with a plain blank at an inner edge that holds an item: on a text
+                    // line the leading blank is dropped, the trailing one becomes a line break
+                    if !single_line && (a == 1 || b == 1) && f.node.children().any(|c| matches!(c.kind(), K::ListItem | K::EnumItem | K::TermItem)) {
+                        add("R35");
+                    }
                     // a multi-line body that ends with a list item directly before the bracket
                     let last_sig = f.node.children().filter(|c| c.kind() != K::Space).last();
                     if !single_line && b != 2 && last_sig.is_some_and(|c| matches!(c.kind(), K::ListItem | K::EnumItem | K::TermItem)) {
@@ -646,6 +666,24 @@ pub fn triggers(src: &str, root: &SyntaxNode) -> Vec<&'static str> {
                                 add("R18");
                             }
                         }
+                    }
+                }
+            }
+            // R66 / R67: the padding blanks of a math call's argument list are dropped although the
+            // neighbouring characters then fuse: a combining mark with the parenthesis before it,
+            // two dots with the parenthesis / separator after them (a spread)
+            K::Args if in_math[i] => {
+                let kids: Vec<&SyntaxNode> = f.node.children().collect();
+                for w in 0..kids.len() {
+                    let txt = syn::text_of(kids[w]);
+                    if w > 0 && matches!(kids[w - 1].kind(), K::Space) && txt.chars().next().is_some_and(is_combining) {
+                        add("R66");
+                    }
+                    if txt.ends_with("..")
+                        && kids.get(w + 1).is_some_and(|n| n.kind() == K::Space)
+                        && kids.get(w + 2).is_some_and(|n| matches!(n.kind(), K::RightParen | K::Comma | K::Semicolon))
+                    {
+                        add("R67");
                     }
                 }
             }
@@ -673,6 +711,11 @@ pub fn triggers(src: &str, root: &SyntaxNode) -> Vec<&'static str> {
         let _ = i;
     }
     v
+}
+
+/// combining marks (the blocks that matter in practice)
+fn is_combining(c: char) -> bool {
+    matches!(c as u32, 0x300..=0x36F | 0x483..=0x489 | 0x591..=0x5BD | 0x610..=0x61A | 0x64B..=0x65F | 0x1AB0..=0x1AFF | 0x1DC0..=0x1DFF | 0x20D0..=0x20FF | 0xFE00..=0xFE0F | 0xFE20..=0xFE2F | 0x200D)
 }
 
 fn ends_line_with_blank(text: &str) -> bool {
